@@ -142,8 +142,8 @@ def gen_state(rng, n, fam, part):
         rows, cols = 2 ** (n - len(ps)), 2 ** len(ps)
         k = {"rank1": 1, "rank2": 2, "rank3": 3, "rank5": 5, "degenerate": min(rows, cols)}[fam]
         k = min(k, rows, cols)
-        qa, _ = np.linalg.qr(_cgauss(rng, rows * rows).reshape(rows, rows))
-        qb, _ = np.linalg.qr(_cgauss(rng, cols * cols).reshape(cols, cols))
+        qa, _ = np.linalg.qr(_cgauss(rng, rows * k).reshape(rows, k))
+        qb, _ = np.linalg.qr(_cgauss(rng, cols * k).reshape(cols, k))
         if fam == "degenerate":
             s = np.ones(k)
             if rng.random() < 0.5:      # partially degenerate: two distinct values, each repeated
@@ -178,9 +178,6 @@ def eval_case(ctx, n, vec, part, rank, svd, family, as_list=False, part_tuple=Fa
                                     _undo_separation_matrix)
     vec = np.asarray(vec, dtype=complex)
     part = [int(p) for p in part]
-    case = {"function": "schmidt_decomposition", "n": n, "partition": part, "size": len(part), "rank": int(rank),
-            "svd": svd, "family": family, "as_list": bool(as_list), "part_tuple": bool(part_tuple),
-            "sorted": part == sorted(part), "vector": enc_vec(vec)}
     bad = []
     arg_v = [complex(x) for x in vec] if as_list else vec.copy()
     arg_p = tuple(part) if part_tuple else list(part)
@@ -265,6 +262,9 @@ def eval_case(ctx, n, vec, part, rank, svd, family, as_list=False, part_tuple=Fa
     except Exception as exc:  # construction must not fail on a valid input
         bad.append(f"raised {type(exc).__name__}: {str(exc)[:120]}")
     if bad:
+        case = {"function": "schmidt_decomposition", "n": n, "partition": part, "size": len(part), "rank": int(rank),
+                "svd": svd, "family": family, "as_list": bool(as_list), "part_tuple": bool(part_tuple),
+                "sorted": part == sorted(part), "vector": enc_vec(vec)}
         ctx.violation(f"schmidt_decomposition/composition n={n} partition={part} rank={rank} svd={svd}: " + "; ".join(bad[:3]), case)
         return False
     return True
@@ -280,8 +280,8 @@ def all_subsets(n):
 
 def evaluate(ctx, deep):
     rng = ctx.rng
-    nmax_all = 8 if deep else 6        # every subset x every family up to here
-    nmax = 10 if deep else 8           # every subset, rotating families above
+    nmax_all = 9 if deep else 7        # every subset x every family up to here
+    nmax = 11 if deep else 9           # every subset, rotating families above
     for n in range(2, nmax + 1):
         subsets = list(all_subsets(n))
         for si, part in enumerate(subsets):
